@@ -173,3 +173,8 @@ def scan_interior_state(repo):
             if pat.search(code):
                 hits.append("%s:%d: %s" % (os.path.relpath(f, repo), n, code.strip()[:80]))
     return {"files_scanned": files, "hits": hits, "note": "textual scan; an assumption check, not a proof"}
+
+PROPS["C08"]["not_covered"] = ["ParseCommand::eval beyond K12's bounds (closures over &mut State keep it outside Verus): path push, short aliases, the adjacent retry path (defect D9 was there; its scenario ran CBMC out of memory)"]
+PROPS["C08"]["claim"] = PROPS["C08"]["explanation"] = PROPS["C08"]["explanation"] + (
+    " ParseCommand::eval is checked by Kani within bounds (K12: command name + 2 items with every ledger; the inner parser is a probe that records the scope it is given): "
+    "the subcommand's parser sees exactly the items from the name to the end of the enclosing scope, whatever the enclosing level already claimed; for an adjacent command exactly the available run after the name, and the enclosing scope is handed back.")
